@@ -390,6 +390,9 @@ func TestC03_Delivery(t *testing.T) {
 		scripts := drawScripts(rt, cfg, conns)
 		kase := &c03case{Config: cfg, Conns: conns, Channels: scripts}
 		fail := runC03(cfg, conns, scripts)
+		if fail.key == "infra" {
+			ev.InfraSkip(rt, c03, "%s", fail.msg)
+		}
 		if fail.key != "" {
 			kase.Failure = fail.msg
 			ev.Violation(rt, c03, fail.key, kase, "%s", fail.msg)
@@ -414,6 +417,43 @@ func TestC03_Delivery(t *testing.T) {
 		if ev.WantSample(c03) {
 			ev.Sample(c03, kase)
 		}
+	})
+}
+
+// TestC03_DeliveryUnderBackpressure runs the Delivery scripts through a proxy that suspends forwarding in
+// one direction for tens of milliseconds at drawn moments. A pause only delays bytes, so every delivery
+// guarantee is unchanged; what changes is that write queues and socket buffers stay full for a long time:
+// window updates, close frames and data wait for queue space while contexts are cancelled and channels end.
+func TestC03_DeliveryUnderBackpressure(t *testing.T) {
+	ev.Rule(c03, "rapid, back-pressure variant: Delivery scripts (1..8 channels) over connections that pass through a TCP proxy which suspends forwarding in a drawn direction 1..3 times (start 0..30 ms into the case, for 20..150 ms); small write queues {16,17,100,4096}, windows {16 KiB, 64 KiB} and 16 KiB proxy receive buffers so that window updates become due while the queue is full; oracle as in Delivery; non-trivial = all")
+	ev.CheckScaled(t, c03, 1, 32, func(rt *rapid.T) {
+		cfg := drawConfig(rt)
+		cfg.Sched = drawSched(rt)
+		// the window must allow enough data in flight to fill the kernel buffers of a paused direction
+		cfg.Window = []int{16384, 65536, 65536}[rapid.IntRange(0, 2).Draw(rt, "bpwindow")]
+		cfg.WriteQueue = []int{16, 17, 100, 4096}[rapid.IntRange(0, 3).Draw(rt, "bpwriteq")]
+		np := rapid.IntRange(1, 3).Draw(rt, "pauses")
+		for i := 0; i < np; i++ {
+			cfg.Pauses = append(cfg.Pauses, pauseSpec{Dir: rapid.IntRange(0, 1).Draw(rt, "pausedir"), AfterMs: rapid.IntRange(0, 30).Draw(rt, "pauseafter"), ForMs: rapid.IntRange(20, 150).Draw(rt, "pausefor")})
+		}
+		scripts := drawScripts(rt, cfg, 1)
+		if len(scripts) > 8 {
+			scripts = scripts[:8]
+		}
+		kase := &c03case{Config: cfg, Conns: 1, Channels: scripts}
+		fail := runC03(cfg, 1, scripts)
+		if fail.key == "infra" {
+			ev.InfraSkip(rt, c03, "%s", fail.msg)
+		}
+		if fail.key != "" {
+			kase.Failure = fail.msg
+			ev.Violation(rt, c03, "backpressure:"+fail.key, kase, "%s", fail.msg)
+		}
+		var hp []any
+		for _, sc := range scripts {
+			hp = append(hp, fmt.Sprint(sc.C2S, sc.S2C, sc.Variant, sc.ClosePayload, sc.CloseBy, sc.EarlyAt))
+		}
+		ev.Case(c03, ev.Hash(append(hp, "bp", fmt.Sprint(cfg))...), true, "backpressure")
 	})
 }
 
@@ -470,11 +510,32 @@ func runC03(cfg netConfig, conns int, scripts []*chanScript) (f failure) {
 				c03registry.Delete(sc.ID)
 			}
 		}()
+		addr := srv.Addr
+		if len(cfg.Pauses) > 0 {
+			px, err := netfx.NewProxy(srv.Addr)
+			if err != nil {
+				panic(fmt.Sprintf("infrastructure: %v", err))
+			}
+			defer px.Close()
+			px.SetSmallBuffers(true) // a paused direction pushes back on the sender after tens of KB, not megabytes
+			addr = px.Addr()
+			stopPauses := make(chan struct{})
+			defer close(stopPauses)
+			for _, ps := range cfg.Pauses {
+				go func(ps pauseSpec) {
+					select {
+					case <-time.After(time.Duration(ps.AfterMs) * time.Millisecond):
+						px.PauseDir(ps.Dir, time.Duration(ps.ForMs)*time.Millisecond)
+					case <-stopPauses:
+					}
+				}(ps)
+			}
+		}
 		var cs []mpx.Conn
 		for i := 0; i < conns; i++ {
-			c, st := mpx.Connect(ctxNone(), srv.Addr, log, cfg.options())
+			c, st := mpx.Connect(ctxNone(), addr, log, cfg.options())
 			if !st.OK() {
-				f = failure{"connect-failed", fmt.Sprintf("Connect: %v", st)}
+				f = failure{"infra", fmt.Sprintf("Connect: %v", st)}
 				return
 			}
 			cs = append(cs, c)
